@@ -1,8 +1,8 @@
-\* generated by lib/brokerlib.py gen_configs (tlc -simulate num=N -depth 40 -config Gen_small.cfg Broker.tla)
+\* generated by lib/brokerlib.py gen_configs (tlc -simulate num=N -depth 60 -config Gen_core.cfg Broker.tla)
 CONSTANTS
-  Proxies = {"p1"}
-  Clients = {"c1"}
-  Answers = {"a1"}
+  Proxies = {"p1", "p2"}
+  Clients = {"c1", "c2"}
+  Answers = {"a1", "a2"}
   PT = 2
   CT = 2
   Loads = {0, 5, 8, 13, 20, 21, 28, 29}
@@ -10,9 +10,9 @@ CONSTANTS
   StrictTimers = TRUE
   D1Fixed = TRUE
   D2Fixed = TRUE
-  PNatSet = {"unrestricted", "restricted", "unknown", "absent"}
+  PNatSet = {"unrestricted", "restricted", "unknown"}
   CNatSet = {"unrestricted", "restricted", "unknown", "absent"}
-  FpSet = {"default", "b2", "unlisted"}
+  FpSet = {"default", "b2"}
   UnknownTargets = TRUE
   Bridges = {"default", "b2"}
   DupSids = FALSE
